@@ -6,6 +6,7 @@ tnetstring format (spec used by the contracts, written from the format descripti
     list/tuple -> enc(x1)..enc(xn) "]" | dict -> enc(k1) enc(v1) .. enc(kn) enc(vn) "}"
 """
 from pyvc.api import *
+from pyvc.core import SV
 from props.C37 import mk_file, sl, all_digits, is_digit_code, raise_, is_ghost, EMPTY_MSG, LOAD_OUTCOMES, _cls, FRE
 
 import pyvc.vc as _V
@@ -556,6 +557,79 @@ def s_stream_errors(vc):
     vc.ensure("invalid_record.only_flow_read_exception", cond)  # was recorded finding KF-C36-1, repaired in /repo (see known_findings.d)
 
 
+# ---------------------------------------------------------------------------------------------
+# http.MessageData.get_state: the state of a request/response is plain data for EVERY shape of headers/trailers, in
+# particular for a present-but-empty trailers block (None, empty and non-empty are three different cases)
+
+MD = "mitmproxy.http:MessageData"
+PLAIN = (type(None), bool, int, float, str, bytes, tuple, list, dict)
+
+
+def is_plain(x):
+    """plain tnetstring-serialisable data all the way down (no live objects)"""
+    if isinstance(x, SUnion):
+        return all(is_plain(v) for _, v in x.alts)
+    if isinstance(x, (SInt, SBool, SStr, SBytes)) or x is NONE or (isinstance(x, SV) and type(x).__name__ == "SFloat"):
+        return True
+    if isinstance(x, (STuple, SList)):
+        return all(is_plain(i) for i in x.items)
+    if isinstance(x, SDict):
+        return all(is_plain(k) and is_plain(v) for k, v in x.items)
+    if is_sym(x):
+        return False
+    if isinstance(x, (tuple, list)):
+        return all(is_plain(i) for i in x)
+    if isinstance(x, dict):
+        return all(is_plain(k) and is_plain(v) for k, v in x.items())
+    return type(x) in PLAIN
+
+
+def mk_headers(vc, name, n):
+    pairs = tuple((vc.sym_bytes(f"{name}_k{i}"), vc.sym_bytes(f"{name}_v{i}")) for i in range(n))
+    return vc.new("mitmproxy.http:Headers", fields=pairs), pairs
+
+
+def sget(d, key):
+    if isinstance(d, SDict):
+        for k, x in d.items:
+            if isinstance(k, SStr) and k.concrete() == key:
+                return x
+        return "<missing>"
+    return d.get(key, "<missing>")
+
+
+@scenario("MessageData.get_state", functions=[MD + ".get_state"])
+def s_messagedata_state(vc):
+    kind = vc.case("message", ["request", "response"])
+    nh = vc.case("headers", [0, 1, 2])
+    tr = vc.case("trailers", ["none", "empty", "one", "two"])
+    headers, hpairs = mk_headers(vc, "h", nh)
+    trailers, tpairs = (None, None) if tr == "none" else mk_headers(vc, "t", {"empty": 0, "one": 1, "two": 2}[tr])
+    content = vc.opt("content", vc.sym_bytes("body"))
+    common = dict(http_version=vc.sym_bytes("http_version"), headers=headers, content=content, trailers=trailers, timestamp_start=1.5, timestamp_end=None)
+    if kind == "request":
+        data = vc.new("mitmproxy.http:RequestData", host=vc.sym_str("host"), port=vc.sym_int("port"), method=vc.sym_bytes("method"), scheme=vc.sym_bytes("scheme"),
+                      authority=vc.sym_bytes("authority"), path=vc.sym_bytes("path"), **common)
+    else:
+        data = vc.new("mitmproxy.http:ResponseData", status_code=vc.sym_int("status_code"), reason=vc.sym_bytes("reason"), **common)
+    out = vc.call(MD + ".get_state", data)
+    vc.ensure("no_exception", out.ok)
+    if not out.ok:
+        return
+    st = out.result
+    vc.ensure("state.is_plain_data", is_plain(st))
+    vc.ensure("state.headers_are_the_field_pairs", vc.eq(sget(st, "headers"), hpairs))
+    t = sget(st, "trailers")
+    if tr == "none":
+        vc.ensure("state.trailers_none_iff_absent", isnone(t) is True)
+    else:
+        present = not isinstance(t, str) and isnone(t) is not True and t is not None
+        vc.ensure("state.trailers_none_iff_absent", present)
+        vc.ensure("state.trailers_are_the_field_pairs", And(present and t is not trailers, vc.eq(t, tpairs) if present else False))
+    vc.ensure("state.scalar_fields", And(vc.eq(sget(st, "http_version"), data.http_version), vc.eq(sget(st, "timestamp_start"), 1.5)))
+    vc.ensure("frame.object_untouched", data.headers is headers and (data.trailers is trailers or (tr == "none" and isnone(data.trailers) is True)))
+
+
 # =============================================================================================
 # T2 (bounded)
 
@@ -578,6 +652,17 @@ def _attr(o, path):
         except Exception:  # noqa: BLE001  (e.g. Request.content decoding of an exotic body)
             o = getattr(o.data, p)
     return o
+
+
+def _non_plain_paths(x, path="state"):
+    if isinstance(x, dict):
+        for k, v in x.items():
+            yield from _non_plain_paths(v, f"{path}[{k!r}]")
+    elif isinstance(x, (list, tuple)):
+        for i, v in enumerate(x):
+            yield from _non_plain_paths(v, f"{path}[{i}]")
+    elif type(x) not in PLAIN:
+        yield f"{path}: {type(x).__name__}"
 
 
 def _norm_seq(x):
@@ -633,7 +718,28 @@ def _variants(kind, rnd):
         add("server_conn.certificate_list", lambda f: setattr(f.server_conn, "certificate_list", [cert, cert]))
         add("client_conn.mitmcert", lambda f: setattr(f.client_conn, "mitmcert", cert))
         add("client_conn.certificate_list", lambda f: setattr(f.client_conn, "certificate_list", [cert]))
+    # falsy-but-present values of optional fields (None / empty / zero are different states)
+    for side in ("client_conn", "server_conn"):
+        for name, val in [("sni", ""), ("alpn", b""), ("cipher", ""), ("error", ""), ("timestamp_end", 0.0), ("timestamp_tls_setup", 0), ("alpn_offers", []),
+                          ("cipher_list", []), ("certificate_list", [])]:
+            add(f"{side}.{name}=falsy {val!r}", lambda f, s=side, n=name, v=val: setattr(getattr(f, s), n, v))
+    add("server_conn.timestamp_start=0", lambda f: setattr(f.server_conn, "timestamp_start", 0))
+    add("server_conn.timestamp_tcp_setup=0.0", lambda f: setattr(f.server_conn, "timestamp_tcp_setup", 0.0))
+    add("is_replay=''", lambda f: setattr(f, "is_replay", ""))
+    add("error.empty", lambda f: setattr(f, "error", mflow.Error("", 0)))
+    add("metadata.empty_values", lambda f: f.metadata.update({"e1": "", "e2": b"", "e3": [], "e4": {}, "e5": 0, "e6": 0.0, "e7": False, "e8": None}))
     if kind in ("http", "http_err", "http_noresp", "ws"):
+        add("request.trailers=empty", lambda f: setattr(f.request, "trailers", http.Headers()))
+        add("request.trailers=empty,headers=empty", lambda f: [setattr(f.request, "trailers", http.Headers()), setattr(f.request, "headers", http.Headers())])
+        add("request.timestamp_end=0", lambda f: setattr(f.request.data, "timestamp_end", 0))
+        if kind == "http":
+            add("response.trailers=empty", lambda f: setattr(f.response, "trailers", http.Headers()))
+            add("response.headers=empty", lambda f: setattr(f.response, "headers", http.Headers()))
+            add("response.timestamp_end=0.0", lambda f: setattr(f.response.data, "timestamp_end", 0.0))
+            add("both.trailers=empty", lambda f: [setattr(f.request, "trailers", http.Headers()), setattr(f.response, "trailers", http.Headers())])
+        if kind == "ws":
+            for name, val in [("close_reason", ""), ("close_code", 0), ("closed_by_client", False), ("timestamp_end", 0.0)]:
+                add(f"ws.{name}=falsy {val!r}", lambda f, n=name, v=val: setattr(f.websocket, n, v))
         hdr_sets = [http.Headers(), http.Headers([(b"a", b"1"), (b"A", b"2"), (b"a", b"")]), http.Headers([(b"x-bin", b"\xff\xfe\x00"), (b"", b"empty name")]),
                     http.Headers([(b"n%d" % i, b"v" * i) for i in range(60)])]
         for i, h in enumerate(hdr_sets):
@@ -817,6 +923,13 @@ def bounded(tier, seed):
     def roundtrip(label, flows, via_file=False):
         try:
             states = [f.get_state() for f in flows]
+        except Exception as e:  # noqa: BLE001
+            b.fail("roundtrip.get_state_does_not_fail", label, f"{type(e).__name__}: {e}")
+            return
+        for st in states:
+            if not is_plain(st):
+                b.fail("roundtrip.state_is_plain_data", label, "get_state() contains a live object: " + ", ".join(_non_plain_paths(st))[:300])
+        try:
             data, bounds = ioflows.encode_flows(flows)
         except Exception as e:  # noqa: BLE001
             b.fail("roundtrip.saving_does_not_fail", label, f"{type(e).__name__}: {e}")
